@@ -51,6 +51,9 @@ def gen_pattern(rng, nmax, force_kind=None):
     kind = force_kind or rng.choice(["random", "random", "sparse", "emptycols", "emptyrows", "denserow", "blocks", "arrow", "band",
                                      "chain", "identity", "dense", "zero", "n1", "rect", "rect", "perm", "tridiag", "lowertri", "uppertri"])
     n = 1 if kind == "n1" else rng.choice([1, 2, 3, 4, 5, 6, 7, 8] + [rng.randint(9, nmax) for _ in range(10)])
+    if kind in ("arrowrow_big", "borderrows_big", "denserows_big"):
+        # large enough for COLAMD's dense-row / dense-column classification (> max(16, 10*sqrt(n)) entries) to trigger
+        n = rng.randint(130, 260)
     m = n
     if kind == "rect":
         m = max(1, rng.choice([n + rng.randint(1, 6), max(1, n - rng.randint(1, min(6, n))), rng.randint(1, nmax)]))
@@ -76,6 +79,29 @@ def gen_pattern(rng, nmax, force_kind=None):
         for r in rng.sample(range(m), min(m, rng.randint(1, 2))):
             for j in range(n):
                 S.add((r, j))
+    if kind == "arrowrow_big":
+        for j in range(n):
+            S.add((j, j)); S.add((0, j))
+        if rng.random() < 0.5:
+            for j in range(n): S.add((n - 1, j))
+    if kind == "borderrows_big":
+        r1, r2 = rng.sample(range(n), 2)
+        for j in range(n):
+            S.add((r1, j)); S.add((r2, j))
+            if j not in (r1, r2):
+                S.add((j, j))
+                if j + 1 < n and j + 1 not in (r1, r2): S.add((j + 1, j)); S.add((j, j + 1))
+        # a few columns that live only in the dense rows
+        for c in rng.sample(range(n), 3):
+            S = {(i, j) for (i, j) in S if j != c or i in (r1, r2)}
+    if kind == "denserows_big":
+        for r in rng.sample(range(n), rng.randint(1, 3)):
+            for j in range(n): S.add((r, j))
+        for c in rng.sample(range(n), rng.randint(1, 3)):
+            for i in range(n): S.add((i, c))
+        for j in range(n):
+            if rng.random() < 0.7: S.add((j, j))
+            if rng.random() < 0.3: S.add((rng.randrange(n), j))
     if kind == "blocks":
         b = rng.randint(1, 5)
         for j in range(n):
@@ -287,6 +313,9 @@ def run(ctx):
     # a few big ones
     for t in range(6 if quick else 40):
         cases.append(gen_pattern(rng, nmax, force_kind=rng.choice(["sparse", "band", "blocks", "arrow", "random"])))
+    # patterns that reach COLAMD's dense-row / newly-null-column code (needs n well above 100)
+    for t in range(9 if quick else 60):
+        cases.append(gen_pattern(rng, nmax, force_kind=["arrowrow_big", "borderrows_big", "denserows_big"][t % 3]))
     for i, M in enumerate(cases):
         M["cid"] = "c%d" % i
     dist = Counter()
